@@ -3,9 +3,10 @@
 (1) MC + IX: MC_RunFilter enumerates every boolean array up to length N and every min_n_cycles, runs the
     scanning state machine, checks C08 / agreement of the three definitions on the specification, and
     compares with the table of outputs of the REAL check_min_burst_cycles for the same inputs.
-(P) PROOF: RunFilterProof.tla (TLAPS, 63 obligations): for boolean arrays of ANY length the maximal run through an index is unique, a
-    whole maximal run is kept exactly when it is long enough (so kept or cleared entirely), nothing turns FALSE -> TRUE, and raising
-    min_n_cycles only removes labels.
+(P) PROOF: RunFilterProof.tla (TLAPS, 137 obligations): for boolean arrays of ANY length the maximal run through an index is unique, a
+    whole maximal run is kept exactly when it is long enough (so kept or cleared entirely), nothing turns FALSE -> TRUE, raising
+    min_n_cycles only removes labels, and (two inductions: the maximal run around a stretch of TRUEs exists) the filter is monotone in
+    the ARRAY - fewer qualifying cycles, fewer kept ones: what C06 / C07 (raising a threshold) and C16 (bursts only grow) rest on.
 (2) TV: random long arrays (to 2000 elements, run-length distributions around min_n_cycles) through the
     real function twice; Trace_RunFilter judges every recorded call.
 """
@@ -30,7 +31,10 @@ def _impl_range(args):
         for m in range(max_m + 1):
             wide = np.zeros(2 * n, dtype=bool)
             wide[::2] = b
-            for arg in (b.copy(), np.ascontiguousarray(b[::-1])[::-1], wide[::2]):
+            ro = b.copy()
+            if mask % 3 == 1:
+                ro.setflags(write=False)        # a read-only boolean array: what a table column is under pandas copy-on-write (df['is_burst'].values)
+            for arg in (ro, np.ascontiguousarray(b[::-1])[::-1], wide[::2]):
                 try:
                     r = check_min_burst_cycles(arg, min_n_cycles=m)
                     if not isinstance(r, np.ndarray) or len(r) != n:
@@ -142,7 +146,10 @@ def run_tv(ctx, n_cases, max_len):
     recs, nontriv = [], 0
     for b, m in gen_long(rng, n_cases, max_len):
         try:
-            o = check_min_burst_cycles(b.copy(), min_n_cycles=m)
+            arg = b.copy()
+            if len(recs) % 3 == 1:
+                arg.setflags(write=False)       # a read-only array (a column of a pandas table, a memory-mapped file)
+            o = check_min_burst_cycles(arg, min_n_cycles=m)
             o2 = check_min_burst_cycles(np.array(o).copy(), min_n_cycles=m)
             recs.append({'b': [bool(x) for x in b], 'm': m, 'out': [bool(x) for x in o], 'out2': [bool(x) for x in o2]})
         except Exception as e:
@@ -187,7 +194,7 @@ def run_tv(ctx, n_cases, max_len):
     ctx.sample({'trace_case': {'len': len(recs[0]['b']), 'm': recs[0]['m'], 'first_32': [int(x) for x in recs[0]['b'][:32]]}})
 
 
-PROOF_THEOREMS = ['NoFalseToTrue', 'RunThroughAnIndexIsUnique', 'WholeRunsShareOneFate', 'KeptIffLongEnough', 'MonotoneInTheMinimum']
+PROOF_THEOREMS = ['NoFalseToTrue', 'RunThroughAnIndexIsUnique', 'WholeRunsShareOneFate', 'KeptIffLongEnough', 'MonotoneInTheMinimum', 'ExtendLeft', 'ExtendRight', 'MaxRunAround', 'MonotoneInTheArray']
 
 
 def run(ctx):
